@@ -59,6 +59,27 @@ theorem send_hook_auth {w : World} {t u p amt : Nat} {h' : Hook} {r : World × O
        | _ => False) :=
   Halo.C14.send_hook_auth h
 
+/-- … and through `SendFrom` by a spender with the holder's allowance -/
+theorem sendFrom_hook_auth {name : Asset → String} {w : World} {t sp o p amt : Nat} {h' : Hook} {r : World × Out}
+    (hp : (w.pair p).isSome) (h : tokSendFrom name w t sp o p amt h' = .ok r) :
+    ∃ P, w.pair p = some P ∧
+      (match h' with
+       | .swap offer a _ _ _ => (P.a0 = .token t ∨ P.a1 = .token t) ∧ offer = .token t ∧ a = amt
+       | .withdraw => t = P.lp
+       | _ => False) :=
+  Halo.C14.sendFrom_hook_auth hp h
+
+/-- cw20 `SendFrom` is exactly a `TransferFrom` by the spender followed by the `Receive` that the token contract
+sends to the destination (`info.sender` = the token, `cw20_msg.sender` = the SPENDER, no funds): every statement about
+a raw `Receive` (`Op.pair t d [] (.receive …)`, `Op.router t [] (.receive …)`) speaks about `SendFrom` too -/
+theorem sendFrom_is_transferFrom_then_receive {name : Asset → String} {w : World} {t sp o d amt : Nat} {hk : Hook}
+    {r : World × Out} :
+    exec name w (.tokSendFrom t sp o d amt hk) = .ok r ↔
+      ∃ w1, tokTransferFrom w t sp o d amt = .ok w1 ∧
+        (((w.pair d).isSome ∧ exec name w1 (.pair t d [] (.receive sp amt hk)) = .ok r) ∨
+         ((w.pair d).isSome = false ∧ d = w.router ∧ exec name w1 (.router t [] (.receive sp amt hk)) = .ok r)) :=
+  Halo.C14.exec_tokSendFrom_iff
+
 /-- malformed hooks are rejected -/
 theorem garbage_hook_rejected {w : World} {s p from_ amount : Nat} {funds : List (Nat × Nat)} {r : World × Out} :
     pairExec w s p funds (.receive from_ amount .garbage) ≠ .ok r :=
